@@ -16,6 +16,8 @@ DEFS = ['-DVERSION_INFO="verif"']
 
 def _inc():
     inc = ['-I' + os.path.join(REPO, 'include')]
+    # rapidjson is an empty submodule directory here: a small stand-in lets Content.cpp / util.cpp / type/Type.cpp be lowered too
+    inc.append('-I' + os.path.join(os.path.dirname(os.path.abspath(__file__)), 'standin'))
     # include/awkward/kernels.h is a generated, git-ignored file: scratch worktrees lack it -> fall back to /repo's copy
     if not os.path.exists(os.path.join(REPO, 'include', 'awkward', 'kernels.h')):
         fb = os.path.join(CACHE, 'fallback_inc', 'awkward')
